@@ -131,6 +131,15 @@ CHECKS = {
             'script/style/comment, every key and leaf must be present, the value must be untouched; thorough covers the full '
             'product of 10 options (6912 combinations).',
             BASE_NOTE),
+    'C16': ('E4-sched', 'model_checking',
+            'stateless schedule exploration of real worker threads under a controlled scheduler with iterative preemption bounding',
+            'Six harnesses of 2-3 real threads iterating the same named in-memory sampling loop (different groups, same group '
+            'with done / measure / skip, an evolution with feedback, end_loop, three workers): every schedule with at most 1 '
+            'preemption (2 for the two-worker harnesses in thorough) at statement granularity inside the sampling, backend, '
+            'generator and evolution modules is executed to quiescence and checked: trial count and ids, delivery to one '
+            'group within one shared study, exactly-once feedback, counters, completion, summary, best trial, no crash, no '
+            'deadlock.',
+            BASE_NOTE),
     'C18': ('E2-enum', 'model_checking',
             'bounded-exhaustive enumeration of signatures x call patterns, differential against the interpreter',
             'Every signature with up to 4 (5 thorough) parameters (required / defaulted positionals, *args, keyword-only, '
